@@ -21,13 +21,15 @@ cfg("c01")                                                     # 1x2, 2 ids, 1 w
 cfg("c01_t1", maxid=3, maxwm=1)                                # thorough
 cfg("c01_t2", tgt="{t1, t2, t3}", maxid=2, maxwm=1, chancap=1)
 cfg("c01_pre", seedfix="FALSE")                                # the pinned tree before the fix (documentation)
+cfg("c02_q", late="{t2}", maxwm=0)
 cfg("c02", late="{t2}")                                        # a target that connects late
+cfg("c02b_q", src="{s1, s2}", maxid=1, maxwm=0)                # two sources feed one target (quick)
 cfg("c02b", src="{s1, s2}", maxid=1, maxwm=1)                  # two sources feed one target
-cfg("c02_t1", late="{t2}", maxid=3)
+cfg("c02_t1", late="{t2}", maxid=3, maxwm=0)
 cfg("c04", faults=1, invs=FAULT, maxwm=1)                      # target-stream faults
 cfg("c04s", faults=1, srcfaults="TRUE", invs=FAULT, maxwm=0)   # source-stream faults
 cfg("c04_q", faults=1, srcfaults="TRUE", invs=FAULT, maxid=1, maxwm=1)
-cfg("c04_t1", faults=2, srcfaults="TRUE", invs=FAULT, maxid=2, maxwm=1)
+cfg("c04_t1", faults=2, srcfaults="TRUE", invs=FAULT, maxid=2, maxwm=0)
 # ---- behaviour generation (RoutingSim)
 cfg("sim_c01", depth=7)
 cfg("sim_c01_t", src="{s1, s2}", maxid=3, maxwm=2, chancap=4, ackcap=2, depth=14)
